@@ -150,6 +150,9 @@ class JsonRPCProtocol:
             except Exception:
                 error = JsonRpcInternalError.of(sys.exc_info())
                 logger.exception('Exception occurred in notification: "%s"', error)
+                self._server._report_server_error(
+                    future.exception(), FeatureNotificationError
+                )
 
             # Revisit. Client does not support response with msg_id = None
             # https://stackoverflow.com/questions/31091376/json-rpc-2-0-allow-notifications-to-have-an-error-response
@@ -186,10 +189,12 @@ class JsonRPCProtocol:
         except JsonRpcException as error:
             logger.exception('Exception occurred for message "%s": %s', msg_id, error)
             self._send_response(msg_id, error=error.to_response_error())
-        except Exception:
+            self._server._report_server_error(error, FeatureRequestError)
+        except Exception as exc:
             error = JsonRpcInternalError.of(sys.exc_info())
             logger.exception('Exception occurred for message "%s": %s', msg_id, error)
             self._send_response(msg_id, error=error.to_response_error())
+            self._server._report_server_error(exc, FeatureRequestError)
         finally:
             self._request_futures.pop(msg_id, None)
 
